@@ -518,6 +518,8 @@ func run(tier, unit string, r *vlib.Rec) {
 		runKinds(r, lo, hi, n)
 	case "classes":
 		runClasses(r, lo, hi)
+	case "apivalues":
+		runAPIValues(r)
 	case "pairs": // all ordered pairs of trees with exactly n and m<=n nodes over the halved alphabet
 		var trees []Tree
 		for m := 1; m <= n; m++ {
@@ -688,6 +690,7 @@ func plan(tier string) []string {
 	out = append(out, vlib.Chunks(fmt.Sprintf("pairs:%d", M), pairTreeCount(M), 60)...)
 	out = append(out, "wide:0:0:1")
 	out = append(out, vlib.Chunks("classes:0", int64(len(classPool)), 2)...)
+	out = append(out, "apivalues:0:0:1")
 	for n := 1; n <= 3; n++ {
 		out = append(out, vlib.Chunks(fmt.Sprintf("kinds:%d", n), int64(len(gen.AllTrees(n)))*gen.Pow(len(kindLabels), n), 3000)...)
 	}
@@ -710,6 +713,10 @@ func replay(c json.RawMessage) (string, string) {
 			return "asymmetric:DeepEqualNodes", obs
 		}
 		return "", obs
+	}
+	if k.Sub == "apivalues" {
+		p := strings.SplitN(k.Arg, "\x00", 2)
+		return checkAPIValue(p[0], p[1])
 	}
 	if k.Sub == "classes" {
 		sig, what := checkClasses(strings.Split(k.Arg, "\x00"))
